@@ -915,6 +915,31 @@ FINDINGS = {
 }
 
 
+def has_ts_value(fl):
+    """Does some filter carry a timestamp (a string in timestamp spelling, or a datetime)?"""
+    for f in fl:
+        v = f["v"]
+        if isinstance(v, str) and TS_RE.match(v):
+            return True
+        if isinstance(v, dict) and len(v) == 1 and "$t" in v:
+            return True
+    return False
+
+
+def ts_text_shaped(kind, keys, expect, fl, pop, only_id=None):
+    """The shape of finding C12-dict-timestamp-text: a timestamp filter is present and the answer differs from the
+    reference only in objects kept as dictionaries (unregistered types), or comparing a datetime with their text raised.
+    (Used together with: the model in variant TextOnDicts gives the very same answer.)"""
+    if not has_ts_value(fl):
+        return False
+    dict_keys = {o["key"] for o in pop if not o["reg"] and (only_id is None or o["id"] == only_id)}
+    if not dict_keys:
+        return False
+    if kind == "OK":
+        return bool(set(keys) ^ set(expect)) and (set(keys) ^ set(expect)) <= dict_keys
+    return kind == "EXC"
+
+
 def bad_keys(g, vals):
     """Keys of the stored objects for which some attached filter of the get spec does not hold (reference evaluation)."""
     out = []
@@ -927,7 +952,7 @@ def bad_keys(g, vals):
     return out
 
 
-def oracle_case(case, impl, viol, stats, om, model_q=None):
+def oracle_case(case, impl, viol, stats, om, model_q=None, mode="TextOnDicts"):
     pop = case["pop"]
     vals = [(o["key"], to_ref(o["tree"])) for o in pop]
     vals_text = [(o["key"], to_ref(o["tree"], ts_as_text=not o["reg"])) for o in pop]
@@ -983,11 +1008,14 @@ def oracle_case(case, impl, viol, stats, om, model_q=None):
                     outside_layout = True
                     if expect_text != expect:
                         finding = FINDINGS["ts"]
+            if finding is None and not outside_layout and model_q is not None and mode == "TextOnDicts" and \
+                    ts_text_shaped(kind, keys, expect, fl, pop) and (kind == "OK" or got[route] == "EXC TypeError"):
+                finding = FINDINGS["ts"]      # e.g. a later filter is never reached because the text comparison already failed
             # a deviation is put down to a known defect (or to the layout hypothesis) only if the model of the
             # code as it was matched -- which contains exactly those defects -- gives the very same answer
             if (finding or outside_layout) and model_q is not None:
                 mline = {"mo": model_q[qi][0], "md": model_q[qi][0], "fs": model_q[qi][1], "c2": model_q[qi][2]}[route]
-                if not same_line(route, got[route], mline):
+                if not same_line(route, got[route], mline, model_q[qi][0]):
                     finding, outside_layout = None, False
                     what += " (the model of the matched code variant gives %s)" % mline[:200]
             if outside_layout:
@@ -1020,7 +1048,7 @@ def oracle_case(case, impl, viol, stats, om, model_q=None):
                     {"kind": "law", "pop": [to_json(o["tree"]) for o in pop], "split": k, "route": route,
                      "a": spa["q"] + spa["att"] + spa["comp"], "b": spb["q"] + spb["att"] + spb["comp"]}))
     oracle_gets(case, impl, viol, stats, model_q[len(case["queries"]):] if model_q is not None else None,
-                vals, vals_text, flagged, flagged_fs2, om)
+                vals, vals_text, flagged, flagged_fs2, om, mode)
 
 
 def ref_versions(vals, gid, fl):
@@ -1038,7 +1066,7 @@ def ref_versions(vals, gid, fl):
     return sorted(out)
 
 
-def oracle_gets(case, impl, viol, stats, model_g, vals, vals_text, flagged, flagged_fs2, om):
+def oracle_gets(case, impl, viol, stats, model_g, vals, vals_text, flagged, flagged_fs2, om, mode):
     """get / all_versions directly and through composites: all_versions(id) is exactly the stored versions of id on
     which every attached and every composite filter holds; the answer of get, if any, is one of them."""
     pop = case["pop"]
@@ -1093,8 +1121,16 @@ def oracle_gets(case, impl, viol, stats, model_g, vals, vals_text, flagged, flag
                             finding = FINDINGS["ts"]
                 elif kind == "ONE" and expect_text is not None and keys[0] in expect_text:
                     finding = FINDINGS["ts"]
+                elif kind == "ONE" and mode == "TextOnDicts" and has_ts_value(fl) and \
+                        any(o2["key"] == keys[0] and not o2["reg"] for o2 in pop):
+                    finding = FINDINGS["ts"]      # a dictionary-kept object answered under a timestamp filter
+                if finding is None and not outside_layout and op == "all_versions" and model_g is not None and \
+                        mode == "TextOnDicts" and ts_text_shaped(kind, keys, expect, fl, pop, only_id=g["id"]) and \
+                        (kind == "OK" or line == "EXC TypeError"):
+                    finding = FINDINGS["ts"]
                 if op == "all_versions" and (finding or outside_layout) and model_g is not None and \
-                        not same_line("mo" if route in ("mo", "cmo") else "fs", line, model_g[gi][ri]):
+                        not same_line("mo" if route in ("mo", "cmo") else "fs", line, model_g[gi][ri],
+                                      model_g[gi][0] if route == "fs" else model_g[gi][2]):
                     finding, outside_layout = None, False
                 if outside_layout:
                     stats["outside_layout_hypothesis"] += 1
@@ -1159,11 +1195,16 @@ def expected_echo(case):
     return hashlib.sha1("\n".join(items).encode()).hexdigest(), set(items)
 
 
-def same_line(route, g, m):
-    """Memory routes: same objects in the same order; filesystem routes: same multiset / same exception class."""
+def same_line(route, g, m, scan=None):
+    """Memory routes: same objects in the same order; filesystem routes: same multiset / same exception class.
+    `scan` is the model's answer on the memory route for the same filters (every stored object is evaluated there):
+    when that raises, WHICH object raises first on a filesystem route depends on os.listdir order, which nothing
+    specifies -- two different exception classes are then the same observation."""
     if route in ("mo", "md"):
         return g == m
     pg, pm = parse_line(g), parse_line(m)
+    if pg[0] == "EXC" and pm[0] == "EXC" and scan is not None and scan.startswith("EXC"):
+        return True
     return (pg[0] == pm[0]) and (pg[1] == pm[1])
 
 
@@ -1178,7 +1219,7 @@ def compare_gets(case, impl, model, dis):
         for route, mline in zip(GET_ROUTES, mod):
             n += 1
             line = got[route][1]
-            if not same_line("mo" if route in ("mo", "cmo") else "fs", line, mline):
+            if not same_line("mo" if route in ("mo", "cmo") else "fs", line, mline, mod[0] if route == "fs" else mod[2]):
                 dis.append({"route": route + ".all_versions", "get": g, "impl": line[:400], "model": mline[:400],
                             "pop": [to_json(o["tree"]) for o in case["pop"]], "split": case["split"]})
     return n
@@ -1193,7 +1234,7 @@ def compare(case, impl, model, dis, improved, scan_raises):
         for route, mline, ordered in (("mo", mm, True), ("md", mm, True), ("fs", mf, False), ("c2", mc, False)):
             n += 1
             g, m = got[route], mline
-            if not same_line(route, g, m):
+            if not same_line(route, g, m, mm):
                 # The model carries the known defects of the matched variant.  If the implementation gives exactly
                 # the reference answer where the model deviates from it, the code has become better than the model on
                 # an input of a known-defect class: recorded, not a disagreement.
@@ -1306,7 +1347,7 @@ def check(run):
     # oracle
     stats = {"judged": 0, "undefined": 0, "laws": 0, "get_answers": 0, "gets_undefined": 0, "outside_layout_hypothesis": 0}
     for gi, (c, r) in enumerate(good):
-        oracle_case(c, r, run.violations, stats, om, model[gi] if model is not None else None)
+        oracle_case(c, r, run.violations, stats, om, model[gi] if model is not None else None, mode)
         for s in c["queries"]:
             fl = s["q"] + s["att"] + s["comp"]
             run.count({"pop": [o["key"] for o in c["pop"]], "spec": [s["q"], s["att"], s["comp"], s["wrap"]]},
